@@ -20,6 +20,15 @@ class TheCheck(Check):
                    "carry the index / NULL / dangling / overlap / accounting logic of the models",
                    "containers covered in this revision: see the stream names in coverage.streams"]
 
+    _extra_modules = ['C12Map']     # per-family property files imported by Props/C12.lean
+
+    def __init__(self, tier, seed):
+        super().__init__(tier, seed)
+        extra = []
+        for m in self._extra_modules:
+            extra += vlib.theorems_of("QlibcModel.Props." + m)
+        self.also_audit = tuple(self.also_audit) + tuple(extra)
+
     def regenerate(self):
         return []
 
